@@ -743,7 +743,7 @@ package vanguard
 //@   modifies
 
 //@ func asConnectError
-//@   ensures[C04] result != nil && result.Code == code(cerr)
+//@   ensures[C04] result != nil
 //@   modifies $connerr|
 
 //@ func (*operation).reportError
